@@ -234,6 +234,7 @@ class Interp:
         self.max_steps = max_steps
         self.current_exc: Optional[PyRaise] = None
         self.trace: List[str] = []
+        self._cm: Dict[tuple, Tuple[Any, Optional[ClassRef]]] = {}
 
     # ---- modules ------------------------------------------------------------------------------
     def module(self, rel: str) -> Mod:
@@ -440,6 +441,15 @@ class Interp:
 
     def class_member(self, c: ClassRef, attr: str, start_after: Optional[ClassRef] = None) -> Tuple[Any, Optional[ClassRef]]:
         """Raw class-level member (Func or evaluated constant) found along the MRO, with its owner; (_MISSING, None) if absent."""
+        ck = (c, attr, start_after)
+        hit0 = self._cm.get(ck)
+        if hit0 is not None:
+            return hit0
+        r = self._class_member(c, attr, start_after)
+        self._cm[ck] = r
+        return r
+
+    def _class_member(self, c: ClassRef, attr: str, start_after: Optional[ClassRef]) -> Tuple[Any, Optional[ClassRef]]:
         chain = self.mro(c)
         if start_after is not None:
             chain = chain[chain.index(start_after) + 1:] if start_after in chain else []
@@ -567,6 +577,7 @@ class Interp:
             v.attrs[attr] = val
         elif isinstance(v, ClassRef):
             v.consts[attr] = val
+            self._cm.clear()
             # the owner along the MRO may differ; only direct class attributes are modelled
             if not any((isinstance(st, ast.Assign) and any(isinstance(t, ast.Name) and t.id == attr for t in st.targets))
                        or (isinstance(st, ast.AnnAssign) and isinstance(st.target, ast.Name) and st.target.id == attr) for st in v.node.body):
@@ -916,3 +927,878 @@ class Interp:
             env.vars[pname] = {k: co(x) for k, x in env.vars[pname].items()}
         else:
             env.vars[pname] = co(env.vars[pname])
+
+    # ---- expressions ----------------------------------------------------------------------------
+    def lookup(self, name: str, env: Env) -> Any:
+        if name in env.globals_decl:
+            return self.global_lookup(env.mod, name)
+        e = env.find(name)
+        if e is not None:
+            return e.vars[name]
+        return self.global_lookup(env.mod, name)
+
+    def ev(self, e: ast.AST, env: Env) -> Any:
+        self.steps += 1
+        if self.steps > self.max_steps:
+            raise Unsupported('evaluation step budget exhausted')
+        if isinstance(e, ast.Constant):
+            if e.value is Ellipsis or isinstance(e.value, complex):
+                raise Unsupported('constant ' + repr(e.value))
+            return e.value
+        if isinstance(e, ast.Name):
+            if e.id == 'NotImplemented':
+                return NotImplementedV
+            return self.lookup(e.id, env)
+        if isinstance(e, ast.Attribute):
+            return self.getattr(self.ev(e.value, env), e.attr)
+        if isinstance(e, ast.Call):
+            return self._ev_call(e, env)
+        if isinstance(e, ast.BoolOp):
+            v = None
+            for x in e.values:
+                v = self.ev(x, env)
+                if isinstance(e.op, ast.And) and not self.truth(v):
+                    return v
+                if isinstance(e.op, ast.Or) and self.truth(v):
+                    return v
+            return v
+        if isinstance(e, ast.UnaryOp):
+            v = self.ev(e.operand, env)
+            if isinstance(e.op, ast.Not):
+                return not self.truth(v)
+            if isinstance(v, (int, float)) and not isinstance(v, bool) or isinstance(v, bool):
+                if isinstance(e.op, ast.USub):
+                    return -v
+                if isinstance(e.op, ast.UAdd):
+                    return +v
+                if isinstance(e.op, ast.Invert) and isinstance(v, int):
+                    return ~v
+            raise Unsupported(f'unary operator in `{pf.nsrc(e)[:60]}`')
+        if isinstance(e, ast.Compare):
+            left = self.ev(e.left, env)
+            for op, c in zip(e.ops, e.comparators):
+                right = self.ev(c, env)
+                if not self.compare(op, left, right):
+                    return False
+                left = right
+            return True
+        if isinstance(e, ast.BinOp):
+            return self.binop(e.op, self.ev(e.left, env), self.ev(e.right, env), e)
+        if isinstance(e, ast.IfExp):
+            return self.ev(e.body if self.truth(self.ev(e.test, env)) else e.orelse, env)
+        if isinstance(e, (ast.Tuple, ast.List, ast.Set)):
+            out: list = []
+            for x in e.elts:
+                if isinstance(x, ast.Starred):
+                    out.extend(self.iterate(self.ev(x.value, env)))
+                else:
+                    out.append(self.ev(x, env))
+            if isinstance(e, ast.Tuple):
+                return tuple(out)
+            if isinstance(e, ast.Set):
+                for x in out:
+                    self._check_key(x)
+                return set(out)
+            return out
+        if isinstance(e, ast.Dict):
+            d: dict = {}
+            for k, v in zip(e.keys, e.values):
+                if k is None:
+                    sub = self.ev(v, env)
+                    if not isinstance(sub, dict):
+                        raise Unsupported('** of a non-dict in a dict display')
+                    d.update(sub)
+                else:
+                    kk = self.ev(k, env)
+                    self._check_key(kk)
+                    d[kk] = self.ev(v, env)
+            return d
+        if isinstance(e, ast.Subscript):
+            v = self.ev(e.value, env)
+            return self.subscript(v, self._ev_slice(e.slice, env), e)
+        if isinstance(e, ast.JoinedStr):
+            parts = []
+            for x in e.values:
+                if isinstance(x, ast.Constant):
+                    parts.append(str(x.value))
+                else:
+                    parts.append(self._formatted(x, env))
+            return ''.join(parts)
+        if isinstance(e, ast.FormattedValue):
+            return self._formatted(e, env)
+        if isinstance(e, (ast.ListComp, ast.GeneratorExp, ast.SetComp)):
+            out = []
+            self._comp(e.generators, 0, env, lambda sc: out.append(self.ev(e.elt, sc)))
+            if isinstance(e, ast.SetComp):
+                for x in out:
+                    self._check_key(x)
+                return set(out)
+            return out
+        if isinstance(e, ast.DictComp):
+            d = {}
+
+            def put(sc: Env) -> None:
+                k = self.ev(e.key, sc)
+                self._check_key(k)
+                d[k] = self.ev(e.value, sc)
+            self._comp(e.generators, 0, env, put)
+            return d
+        if isinstance(e, ast.Lambda):
+            return self.make_function(e, env.mod, env, None, '<lambda>')
+        if isinstance(e, ast.NamedExpr) and isinstance(e.target, ast.Name):
+            v = self.ev(e.value, env)
+            self.assign_name(e.target.id, v, env)
+            return v
+        if isinstance(e, ast.Yield):
+            if env.yields is None:
+                raise Unsupported('yield outside a generator function')
+            env.yields.append(self.ev(e.value, env) if e.value is not None else None)
+            return None
+        if isinstance(e, ast.YieldFrom):
+            if env.yields is None:
+                raise Unsupported('yield from outside a generator function')
+            env.yields.extend(self.iterate(self.ev(e.value, env)))
+            return None
+        raise Unsupported(f'expression {type(e).__name__}: `{pf.nsrc(e)[:80]}`')
+
+    def _ev_slice(self, s: ast.AST, env: Env) -> Any:
+        if isinstance(s, ast.Slice):
+            return slice(self.ev(s.lower, env) if s.lower is not None else None, self.ev(s.upper, env) if s.upper is not None else None,
+                         self.ev(s.step, env) if s.step is not None else None)
+        return self.ev(s, env)
+
+    def _formatted(self, x: ast.FormattedValue, env: Env) -> str:
+        v = self.ev(x.value, env)
+        if x.conversion == ord('r'):
+            v = self.to_repr(v)
+        elif x.conversion == ord('s'):
+            v = self.to_str(v)
+        elif x.conversion == ord('a'):
+            v = ascii(self.to_repr(v)) if not isinstance(v, str) else ascii(v)
+        spec = ''
+        if x.format_spec is not None:
+            spec = self.ev(x.format_spec, env)
+        if isinstance(v, (Inst, ExtObj)) or not _native_ok(v):
+            v = self.to_str(v)
+        try:
+            return format(v, spec)
+        except _NATIVE_ERRORS as ex:
+            raise PyRaise(type(ex).__name__, tuple(map(str, ex.args))) from None
+
+    def _comp(self, gens: List[ast.comprehension], i: int, env: Env, emit: Callable[[Env], None]) -> None:
+        if i == len(gens):
+            emit(env)
+            return
+        g = gens[i]
+        if g.is_async:
+            raise Unsupported('async comprehension')
+        for item in self.iterate(self.ev(g.iter, env)):
+            sc = Env(env, env.mod)
+            sc.cls, sc.self_obj, sc.yields = env.cls, env.self_obj, env.yields
+            self.assign_target(g.target, item, sc, local=True)
+            if all(self.truth(self.ev(c, sc)) for c in g.ifs):
+                self._comp(gens, i + 1, sc, emit)
+
+    def _ev_call(self, e: ast.Call, env: Env) -> Any:
+        # zero-argument super()
+        if isinstance(e.func, ast.Name) and e.func.id == 'super' and env.find('super') is None:
+            if not e.args:
+                cur: Optional[Env] = env
+                while cur is not None and cur.cls is None:
+                    cur = cur.parent
+                if cur is None or not isinstance(cur.self_obj, Inst):
+                    raise Unsupported('super() outside a method')
+                return SuperProxy(cur.self_obj, cur.cls)  # type: ignore[arg-type]
+            if len(e.args) == 2:
+                c, o = self.ev(e.args[0], env), self.ev(e.args[1], env)
+                if isinstance(c, ClassRef) and isinstance(o, Inst):
+                    return SuperProxy(o, c)
+            raise Unsupported(f'`{pf.nsrc(e)}`')
+        fn = self.ev(e.func, env)
+        args: list = []
+        for a in e.args:
+            if isinstance(a, ast.Starred):
+                args.extend(self.iterate(self.ev(a.value, env)))
+            else:
+                args.append(self.ev(a, env))
+        kwargs: dict = {}
+        for k in e.keywords:
+            v = self.ev(k.value, env)
+            if k.arg is None:
+                if not isinstance(v, dict):
+                    if isinstance(v, Inst) and self.class_member(v.cls, 'keys')[0] is not _MISSING:
+                        v = {kk: self.subscript(v, kk, e) for kk in self.iterate(self.call(self.getattr(v, 'keys'), []))}
+                    else:
+                        raise Unsupported('** argument is not a dict')
+                for kk in v:
+                    if not isinstance(kk, str):
+                        raise PyRaise('TypeError', ('keywords must be strings',))
+                    if kk in kwargs:
+                        raise PyRaise('TypeError', (f'got multiple values for keyword argument {kk!r}',))
+                kwargs.update(v)
+            else:
+                kwargs[k.arg] = v
+        return self.call(fn, args, kwargs)
+
+    def subscript(self, v: Any, i: Any, e: Optional[ast.AST] = None) -> Any:
+        if isinstance(v, Inst):
+            m, _o = self.class_member(v.cls, '__getitem__')
+            if m is _MISSING:
+                raise PyRaise('TypeError', (f'{v.cls.name} object is not subscriptable',))
+            return self.call_function(m, [v, i], {})
+        if isinstance(v, dict):
+            self._check_key(i)
+            if i not in v:
+                raise PyRaise('KeyError', (i,))
+            return v[i]
+        if isinstance(v, (str, bytes, list, tuple)):
+            if isinstance(i, slice) or (isinstance(i, int)):
+                try:
+                    return v[i]
+                except _NATIVE_ERRORS as ex:
+                    raise PyRaise(type(ex).__name__, tuple(map(str, ex.args))) from None
+            raise PyRaise('TypeError', ('indices must be integers or slices',))
+        if isinstance(v, ExtObj):
+            items = v.py_iter(self)
+            if isinstance(i, (int, slice)):
+                try:
+                    return items[i]
+                except IndexError:
+                    raise PyRaise('IndexError', ('index out of range',)) from None
+        if isinstance(v, (ClassRef, type, ExtRef)):
+            return v  # typing generics such as Dict[str, int]
+        raise Unsupported(f'subscript of a {type(v).__name__} value' + (f' in `{pf.nsrc(e)[:60]}`' if e is not None else ''))
+
+    def compare(self, op: ast.cmpop, a: Any, b: Any) -> bool:
+        if isinstance(op, ast.Is):
+            if a is None or b is None or isinstance(a, bool) or isinstance(b, bool):
+                return a is b
+            if _native_ok(a) and _native_ok(b) and not isinstance(a, (list, dict, set)):
+                if isinstance(a, (int, str, bytes, float, tuple)):
+                    if type(a) is type(b) and a == b and not (isinstance(a, int) and -5 <= a <= 256):
+                        raise Unsupported('`is` between equal platform values (identity is implementation-defined)')
+                    return type(a) is type(b) and a == b
+            return a is b
+        if isinstance(op, ast.IsNot):
+            return not self.compare(ast.Is(), a, b)
+        if isinstance(op, ast.Eq):
+            return self.py_eq(a, b)
+        if isinstance(op, ast.NotEq):
+            if isinstance(a, Inst):
+                m, _o = self.class_member(a.cls, '__ne__')
+                if m is not _MISSING:
+                    return self.truth(self.call_function(m, [a, b], {}))
+            return not self.py_eq(a, b)
+        if isinstance(op, (ast.In, ast.NotIn)):
+            if isinstance(b, (dict, set, frozenset)):
+                self._check_key(a)
+                r = a in b
+            elif isinstance(b, str):
+                if not isinstance(a, str):
+                    raise PyRaise('TypeError', ('in <string> requires string as left operand',))
+                r = a in b
+            elif isinstance(b, bytes) and isinstance(a, (bytes, int)):
+                r = a in b
+            elif isinstance(b, Inst) and self.class_member(b.cls, '__contains__')[0] is not _MISSING:
+                r = self.truth(self.call_function(self.class_member(b.cls, '__contains__')[0], [b, a], {}))
+            else:
+                r = any(x is a or self.py_eq(a, x) for x in self.iterate(b))
+            return r if isinstance(op, ast.In) else not r
+        if _native_ok(a) and _native_ok(b):
+            try:
+                if isinstance(op, ast.Lt):
+                    return a < b
+                if isinstance(op, ast.LtE):
+                    return a <= b
+                if isinstance(op, ast.Gt):
+                    return a > b
+                if isinstance(op, ast.GtE):
+                    return a >= b
+            except TypeError as ex:
+                raise PyRaise('TypeError', tuple(map(str, ex.args))) from None
+        raise Unsupported('ordering comparison of interpreted objects')
+
+    def binop(self, op: ast.operator, a: Any, b: Any, e: Optional[ast.AST] = None) -> Any:
+        if isinstance(op, ast.Mod) and isinstance(a, str):
+            if isinstance(b, tuple):
+                b = tuple(self._fmt_arg(x) for x in b)
+            elif isinstance(b, dict):
+                b = {k: self._fmt_arg(x) for k, x in b.items()}
+            else:
+                b = self._fmt_arg(b)
+            try:
+                return a % b
+            except _NATIVE_ERRORS as ex:
+                raise PyRaise(type(ex).__name__, tuple(map(str, ex.args))) from None
+        if isinstance(op, ast.Add) and isinstance(a, (list, tuple)) and type(a) is type(b):
+            return a + b
+        if isinstance(op, ast.Mult) and ((isinstance(a, (list, tuple)) and isinstance(b, int)) or (isinstance(b, (list, tuple)) and isinstance(a, int))):
+            n = b if isinstance(b, int) else a
+            if n > 10000:
+                raise Unsupported('very long repetition')
+            return a * b
+        if isinstance(op, ast.BitOr) and isinstance(a, dict) and isinstance(b, dict):
+            return {**a, **b}
+        if _native_ok(a) and _native_ok(b):
+            table = {ast.Add: lambda: a + b, ast.Sub: lambda: a - b, ast.Mult: lambda: a * b, ast.FloorDiv: lambda: a // b, ast.Mod: lambda: a % b,
+                     ast.Div: lambda: a / b, ast.BitAnd: lambda: a & b, ast.BitOr: lambda: a | b, ast.BitXor: lambda: a ^ b,
+                     ast.LShift: lambda: a << b, ast.RShift: lambda: a >> b}
+            f = table.get(type(op))
+            if f is not None:
+                if isinstance(op, ast.Mult) and isinstance(a, (str, bytes)) and isinstance(b, int) and b > 100000:
+                    raise Unsupported('very long repetition')
+                if isinstance(op, ast.LShift) and isinstance(b, int) and b > 4096:
+                    raise Unsupported('very large shift')
+                try:
+                    return f()
+                except _NATIVE_ERRORS as ex:
+                    raise PyRaise(type(ex).__name__, tuple(map(str, ex.args))) from None
+            if isinstance(op, ast.Pow) and isinstance(a, int) and isinstance(b, int) and 0 <= b <= 64:
+                return a ** b
+        if (isinstance(a, str) and isinstance(b, (Inst, ExtObj))) or (isinstance(b, str) and isinstance(a, (Inst, ExtObj))):
+            if isinstance(op, ast.Add):
+                raise PyRaise('TypeError', ('can only concatenate str to str',))
+        raise Unsupported(f'operator {type(op).__name__} on {type(a).__name__} and {type(b).__name__}' + (f' in `{pf.nsrc(e)[:60]}`' if e is not None else ''))
+
+    # ---- statements --------------------------------------------------------------------------
+    def assign_name(self, name: str, v: Any, env: Env) -> None:
+        if name in env.globals_decl:
+            env.mod.cache[name] = v
+            return
+        if name in env.nonlocals:
+            e = env.parent.find(name) if env.parent is not None else None
+            if e is None:
+                raise Unsupported(f'nonlocal {name} not found')
+            e.vars[name] = v
+            return
+        env.vars[name] = v
+
+    def assign_target(self, t: ast.AST, v: Any, env: Env, local: bool = False) -> None:
+        if isinstance(t, ast.Name):
+            if local:
+                env.vars[t.id] = v
+            else:
+                self.assign_name(t.id, v, self._fn_env(env))
+        elif isinstance(t, (ast.Tuple, ast.List)):
+            items = self.iterate(v)
+            star = [i for i, x in enumerate(t.elts) if isinstance(x, ast.Starred)]
+            if star:
+                if len(star) > 1 or len(items) < len(t.elts) - 1:
+                    raise PyRaise('ValueError', ('not enough values to unpack',))
+                k = star[0]
+                tail = len(t.elts) - k - 1
+                seq = items[:k] + [items[k:len(items) - tail]] + items[len(items) - tail:]
+                for x, y in zip(t.elts, seq):
+                    self.assign_target(x.value if isinstance(x, ast.Starred) else x, y, env, local)
+                return
+            if len(items) != len(t.elts):
+                raise PyRaise('ValueError', (f'cannot unpack {len(items)} values into {len(t.elts)} names',))
+            for x, y in zip(t.elts, items):
+                self.assign_target(x, y, env, local)
+        elif isinstance(t, ast.Attribute):
+            self.setattr(self.ev(t.value, env), t.attr, v)
+        elif isinstance(t, ast.Subscript):
+            o = self.ev(t.value, env)
+            i = self._ev_slice(t.slice, env)
+            if isinstance(o, dict):
+                self._check_key(i)
+                o[i] = v
+            elif isinstance(o, list) and isinstance(i, (int, slice)):
+                try:
+                    o[i] = v
+                except _NATIVE_ERRORS as ex:
+                    raise PyRaise(type(ex).__name__, tuple(map(str, ex.args))) from None
+            elif isinstance(o, Inst) and self.class_member(o.cls, '__setitem__')[0] is not _MISSING:
+                self.call_function(self.class_member(o.cls, '__setitem__')[0], [o, i, v], {})
+            else:
+                raise Unsupported(f'subscript store on a {type(o).__name__} value')
+        else:
+            raise Unsupported(f'assignment target `{pf.nsrc(t)[:60]}`')
+
+    @staticmethod
+    def _fn_env(env: Env) -> Env:
+        return env
+
+    def exec_block(self, stmts: List[ast.stmt], env: Env) -> None:
+        for st in stmts:
+            self.exec_stmt(st, env)
+
+    def exec_stmt(self, st: ast.stmt, env: Env) -> None:
+        self.steps += 1
+        if self.steps > self.max_steps:
+            raise Unsupported('evaluation step budget exhausted')
+        if isinstance(st, ast.Expr):
+            self.ev(st.value, env)
+        elif isinstance(st, ast.Assign):
+            v = self.ev(st.value, env)
+            for t in st.targets:
+                self.assign_target(t, v, env)
+        elif isinstance(st, ast.AnnAssign):
+            if st.value is not None:
+                self.assign_target(st.target, self.ev(st.value, env), env)
+        elif isinstance(st, ast.AugAssign):
+            load = _as_load(st.target)
+            cur = self.ev(load, env)
+            rhs = self.ev(st.value, env)
+            if isinstance(cur, list) and isinstance(st.op, ast.Add):
+                cur.extend(self.iterate(rhs))
+                return
+            self.assign_target(st.target, self.binop(st.op, cur, rhs, st), env)
+        elif isinstance(st, ast.Return):
+            raise _Return(self.ev(st.value, env) if st.value is not None else None)
+        elif isinstance(st, ast.If):
+            self.exec_block(st.body if self.truth(self.ev(st.test, env)) else st.orelse, env)
+        elif isinstance(st, ast.For):
+            broke = False
+            for item in self.iterate(self.ev(st.iter, env)):
+                self.assign_target(st.target, item, env)
+                try:
+                    self.exec_block(st.body, env)
+                except _Break:
+                    broke = True
+                    break
+                except _Continue:
+                    continue
+            if not broke:
+                self.exec_block(st.orelse, env)
+        elif isinstance(st, ast.While):
+            n = 0
+            broke = False
+            while self.truth(self.ev(st.test, env)):
+                n += 1
+                if n > 100000:
+                    raise Unsupported('while loop bound exceeded')
+                try:
+                    self.exec_block(st.body, env)
+                except _Break:
+                    broke = True
+                    break
+                except _Continue:
+                    continue
+            if not broke:
+                self.exec_block(st.orelse, env)
+        elif isinstance(st, ast.Break):
+            raise _Break()
+        elif isinstance(st, ast.Continue):
+            raise _Continue()
+        elif isinstance(st, ast.Pass):
+            pass
+        elif isinstance(st, ast.Assert):
+            if not self.truth(self.ev(st.test, env)):
+                raise PyRaise('AssertionError', (self.ev(st.msg, env),) if st.msg is not None else ())
+        elif isinstance(st, ast.Raise):
+            if st.exc is None:
+                if self.current_exc is None:
+                    raise PyRaise('RuntimeError', ('No active exception to reraise',))
+                raise self.current_exc
+            v = self.ev(st.exc, env)
+            if isinstance(v, ExcName):
+                raise PyRaise(v.name, ())
+            if isinstance(v, ExcValue):
+                raise PyRaise(v.name, v.args, v.cls)
+            if isinstance(v, ClassRef):
+                v = self.instantiate(v, [], {})
+                if isinstance(v, ExcValue):
+                    raise PyRaise(v.name, v.args, v.cls)
+            if isinstance(v, ExtRef):
+                raise PyRaise(v.name.split('.')[-1], ())
+            raise Unsupported(f'raise of a {type(v).__name__} value')
+        elif isinstance(st, ast.Try):
+            self._exec_try(st, env)
+        elif isinstance(st, ast.Global):
+            env.globals_decl.update(st.names)
+        elif isinstance(st, ast.Nonlocal):
+            env.nonlocals.update(st.names)
+        elif isinstance(st, ast.FunctionDef):
+            f = self.make_function(st, env.mod, env, None, st.name)
+            env.vars[st.name] = f
+        elif isinstance(st, (ast.Import, ast.ImportFrom)):
+            self._exec_import(st, env)
+        elif isinstance(st, ast.Delete):
+            for t in st.targets:
+                if isinstance(t, ast.Subscript):
+                    o = self.ev(t.value, env)
+                    i = self._ev_slice(t.slice, env)
+                    if isinstance(o, (dict, list)):
+                        try:
+                            del o[i]
+                        except _NATIVE_ERRORS as ex:
+                            raise PyRaise(type(ex).__name__, tuple(map(str, ex.args))) from None
+                        continue
+                elif isinstance(t, ast.Attribute):
+                    o = self.ev(t.value, env)
+                    if isinstance(o, Inst):
+                        if t.attr not in o.attrs:
+                            raise PyRaise('AttributeError', (t.attr,))
+                        del o.attrs[t.attr]
+                        continue
+                elif isinstance(t, ast.Name) and t.id in env.vars:
+                    del env.vars[t.id]
+                    continue
+                raise Unsupported(f'del `{pf.nsrc(t)[:50]}`')
+        elif isinstance(st, ast.With):
+            raise Unsupported('with statement')
+        else:
+            raise Unsupported(f'statement {type(st).__name__}: `{pf.nsrc(st)[:80]}`')
+
+    def _exec_import(self, st: Any, env: Env) -> None:
+        if isinstance(st, ast.Import):
+            for a in st.names:
+                local = a.asname or a.name.split('.')[0]
+                full = a.name if a.asname else a.name.split('.')[0]
+                if full in self.externals:
+                    env.vars[local] = self.externals[full]
+                else:
+                    rel2 = self._rel_of_dotted(full)
+                    env.vars[local] = self.module(rel2) if rel2 is not None else ExtRef(full)
+        else:
+            for a in st.names:
+                if a.name == '*':
+                    raise Unsupported('star import inside a function')
+                env.vars[a.asname or a.name] = self._import_from(env.mod, st, a.name)
+
+    def exc_matches(self, r: PyRaise, t: Any) -> bool:
+        if isinstance(t, tuple):
+            return any(self.exc_matches(r, x) for x in t)
+        if isinstance(t, ExcName):
+            if r.cls is not None:
+                names = {e[4:] for e in r.cls.ext_bases if e.startswith('exc:')}
+                for k in self.mro(r.cls):
+                    names |= {e[4:] for e in k.ext_bases if e.startswith('exc:')}
+                return any(_exc_is(n, t.name) for n in names)
+            return _exc_is(r.name, t.name)
+        if isinstance(t, ClassRef):
+            return r.cls is not None and t in self.mro(r.cls)
+        if isinstance(t, ExtRef):
+            return r.name == t.name.split('.')[-1] or r.name == t.name
+        raise Unsupported(f'except clause with a {type(t).__name__} value')
+
+    def _exec_try(self, st: ast.Try, env: Env) -> None:
+        try:
+            try:
+                self.exec_block(st.body, env)
+            except PyRaise as r:
+                for h in st.handlers:
+                    if h.type is None or self.exc_matches(r, self.ev(h.type, env)):
+                        saved = self.current_exc
+                        self.current_exc = r
+                        if h.name:
+                            env.vars[h.name] = ExcValue(r.name, r.pargs, r.cls)
+                        try:
+                            self.exec_block(h.body, env)
+                        finally:
+                            self.current_exc = saved
+                        break
+                else:
+                    raise
+            else:
+                self.exec_block(st.orelse, env)
+        finally:
+            if st.finalbody:
+                self.exec_block(st.finalbody, env)
+
+    # ---- convenience -------------------------------------------------------------------------
+    def eval_src(self, rel: str, source: str, variables: Optional[Dict[str, Any]] = None) -> Any:
+        """Evaluate OUR OWN expression text in the scope of a repository module."""
+        env = Env(None, self.module(rel))
+        env.vars.update(variables or {})
+        return self.ev(ast.parse(source, mode='eval').body, env)
+
+
+# ------------------------------------------------------------------------------------------------
+# exceptions, builtins
+# ------------------------------------------------------------------------------------------------
+
+
+class ExcName:
+    def __init__(self, name: str):
+        self.name = name
+
+    def __repr__(self) -> str:
+        return f'<exception class {self.name}>'
+
+
+class ExcValue:
+    def __init__(self, name: str, args: tuple, cls: Optional[ClassRef]):
+        self.name = name
+        self.args = args
+        self.cls = cls
+
+
+class _NotImplementedType:
+    def __repr__(self) -> str:
+        return 'NotImplemented'
+
+
+NotImplementedV = _NotImplementedType()
+
+EXC_NAMES = {n for n in dir(_bi) if isinstance(getattr(_bi, n), type) and issubclass(getattr(_bi, n), BaseException)}
+
+
+def _exc_is(name: str, ancestor: str) -> bool:
+    a, b = getattr(_bi, name, None), getattr(_bi, ancestor, None)
+    if isinstance(a, type) and isinstance(b, type):
+        return issubclass(a, b)
+    if isinstance(b, type) and b in (Exception, BaseException) and a is None:
+        return True  # third-party exception classes derive from Exception
+    return name == ancestor
+
+
+def _as_load(t: ast.AST) -> ast.AST:
+    import copy
+    n = copy.deepcopy(t)
+    for x in ast.walk(n):
+        if hasattr(x, 'ctx'):
+            x.ctx = ast.Load()  # type: ignore[attr-defined]
+    return n
+
+
+def _b_isinstance(it: Interp, a: list, k: dict) -> bool:
+    if len(a) != 2 or k:
+        raise Unsupported('isinstance arguments')
+    v, c = a
+    if isinstance(c, tuple):
+        return any(_b_isinstance(it, [v, x], {}) for x in c)
+    if isinstance(c, Builtin) and c.name in _NATIVE_TYPES:
+        c = _NATIVE_TYPES[c.name]
+    if isinstance(c, ClassRef):
+        if isinstance(v, Inst):
+            return c in it.mro(v.cls)
+        if isinstance(v, ExcValue) and v.cls is not None:
+            return c in it.mro(v.cls)
+        return False
+    if isinstance(c, type):
+        if isinstance(v, (Inst, ExtObj, ClassRef, Func, Bound, Builtin, Mod, ExtRef, ExcValue, ExcName)):
+            return c is object
+        return isinstance(v, c)
+    if isinstance(c, ExcName):
+        return isinstance(v, ExcValue) and _exc_is(v.name, c.name)
+    if isinstance(v, ExtObj):
+        r = v.py_isinstance(it, c)
+        if r is not None:
+            return r
+    if isinstance(c, ExtRef):
+        if isinstance(v, ExtObj):
+            raise Unsupported(f'isinstance of a modelled {v.kind} against {c.name}')
+        if isinstance(v, Inst):
+            it.mro(v.cls)
+            if c.name in v.cls.ext_bases or any(c.name in kk.ext_bases for kk in it.mro(v.cls)):
+                return True
+            if c.name.split('.')[0] in ('collections', 'typing', 'abc'):
+                raise Unsupported(f'isinstance against the abstract class {c.name}')
+            return False
+        if _native_ok(v) and c.name.split('.')[0] not in ('collections', 'typing', 'abc', 'numbers'):
+            return False
+    raise Unsupported(f'isinstance against a {type(c).__name__} value')
+
+
+def _b_str(it: Interp, a: list, k: dict) -> Any:
+    if not a:
+        return ''
+    if len(a) == 1:
+        return it.to_str(a[0])
+    if isinstance(a[0], bytes) and all(isinstance(x, str) for x in a[1:]) and len(a) <= 3:
+        try:
+            return str(*a)
+        except _NATIVE_ERRORS as ex:
+            raise PyRaise(type(ex).__name__, tuple(map(str, ex.args))) from None
+    raise Unsupported('str() arguments')
+
+
+def _b_len(it: Interp, a: list, k: dict) -> int:
+    v = a[0]
+    if isinstance(v, Inst):
+        m, _o = it.class_member(v.cls, '__len__')
+        if m is _MISSING:
+            raise PyRaise('TypeError', (f'object of type {v.cls.name} has no len()',))
+        return it.call_function(m, [v], {})
+    if isinstance(v, ExtObj):
+        return v.py_len(it)
+    if isinstance(v, (str, bytes, list, tuple, dict, set, frozenset, range)):
+        return len(v)
+    raise PyRaise('TypeError', (f'object of type {type(v).__name__} has no len()',))
+
+
+def _b_dict(it: Interp, a: list, k: dict) -> dict:
+    d: dict = {}
+    if a:
+        src = a[0]
+        if isinstance(src, dict):
+            d.update(src)
+        elif isinstance(src, Inst) and it.class_member(src.cls, 'keys')[0] is not _MISSING:
+            for kk in it.iterate(it.call(it.getattr(src, 'keys'), [])):
+                d[kk] = it.subscript(src, kk)
+        else:
+            for pair in it.iterate(src):
+                kv = it.iterate(pair)
+                if len(kv) != 2:
+                    raise PyRaise('ValueError', ('dictionary update sequence element has wrong length',))
+                it._check_key(kv[0])
+                d[kv[0]] = kv[1]
+    d.update(k)
+    return d
+
+
+def _b_sorted(it: Interp, a: list, k: dict) -> list:
+    items = it.iterate(a[0])
+    key = k.pop('key', None)
+    rev = bool(k.pop('reverse', False))
+    if k:
+        raise Unsupported('sorted() keywords')
+    keys = [it.call(key, [x]) for x in items] if key is not None else items
+    if _native_ok(keys):
+        try:
+            order = sorted(range(len(items)), key=lambda i: keys[i], reverse=rev)
+        except TypeError as ex:
+            raise PyRaise('TypeError', tuple(map(str, ex.args))) from None
+        return [items[i] for i in order]
+    import functools
+
+    def cmp(i: int, j: int) -> int:
+        return -1 if _py_lt(it, keys[i], keys[j]) else (1 if _py_lt(it, keys[j], keys[i]) else 0)
+    order = sorted(range(len(items)), key=functools.cmp_to_key(cmp), reverse=rev)
+    return [items[i] for i in order]
+
+
+def _py_lt(it: Interp, a: Any, b: Any) -> bool:
+    """a < b with Python's semantics for tuples / lists of mixed platform and interpreted values."""
+    if isinstance(a, (tuple, list)) and type(a) is type(b):
+        for x, y in zip(a, b):
+            if not it.py_eq(x, y):
+                return _py_lt(it, x, y)
+        return len(a) < len(b)
+    if _native_ok(a) and _native_ok(b):
+        try:
+            return a < b
+        except TypeError as ex:
+            raise PyRaise('TypeError', tuple(map(str, ex.args))) from None
+    if isinstance(a, Inst):
+        m, _o = it.class_member(a.cls, '__lt__')
+        if m is not _MISSING:
+            return it.truth(it.call_function(m, [a, b], {}))
+    raise PyRaise('TypeError', (f"'<' not supported between instances of {type(a).__name__} and {type(b).__name__}",))
+
+
+def _b_map(it: Interp, a: list, k: dict) -> list:
+    fn, seqs = a[0], [it.iterate(x) for x in a[1:]]
+    return [it.call(fn, list(xs)) for xs in zip(*seqs)]
+
+
+def _b_getattr(it: Interp, a: list, k: dict) -> Any:
+    if len(a) == 3:
+        try:
+            return it.getattr(a[0], a[1])
+        except PyRaise as r:
+            if r.name == 'AttributeError':
+                return a[2]
+            raise
+    return it.getattr(a[0], a[1])
+
+
+def _b_hasattr(it: Interp, a: list, k: dict) -> bool:
+    try:
+        it.getattr(a[0], a[1])
+        return True
+    except PyRaise as r:
+        if r.name == 'AttributeError':
+            return False
+        raise
+
+
+def _b_int(it: Interp, a: list, k: dict) -> int:
+    if not _native_ok(a) or not _native_ok(k):
+        raise Unsupported('int() of an interpreted object')
+    try:
+        return int(*a, **k)
+    except _NATIVE_ERRORS as ex:
+        raise PyRaise(type(ex).__name__, tuple(map(str, ex.args))) from None
+
+
+def _native_builtin(f: Callable) -> Callable:
+    def g(it: Interp, a: list, k: dict) -> Any:
+        if not _native_ok(a) or not _native_ok(k):
+            raise Unsupported(f'{f.__name__}() of an interpreted object')
+        try:
+            return f(*a, **k)
+        except _NATIVE_ERRORS as ex:
+            raise PyRaise(type(ex).__name__, tuple(map(str, ex.args))) from None
+    return g
+
+
+def _b_type(it: Interp, a: list, k: dict) -> Any:
+    if len(a) != 1:
+        raise Unsupported('type() with three arguments')
+    v = a[0]
+    if isinstance(v, Inst):
+        return v.cls
+    if v is None:
+        return type(None)
+    if _native_ok(v):
+        return type(v)
+    raise Unsupported(f'type() of a {type(v).__name__} value')
+
+
+def _b_minmax(which: Callable) -> Callable:
+    def g(it: Interp, a: list, k: dict) -> Any:
+        items = it.iterate(a[0]) if len(a) == 1 else a
+        if k or not _native_ok(items):
+            raise Unsupported('min/max over interpreted objects')
+        try:
+            return which(items)
+        except _NATIVE_ERRORS as ex:
+            raise PyRaise(type(ex).__name__, tuple(map(str, ex.args))) from None
+    return g
+
+
+def _b_set(it: Interp, a: list, k: dict) -> set:
+    items = it.iterate(a[0]) if a else []
+    for x in items:
+        it._check_key(x)
+    return set(items)
+
+
+BUILTINS: Dict[str, Builtin] = {}
+for _n, _f in {
+    'isinstance': _b_isinstance, 'str': _b_str, 'len': _b_len, 'dict': _b_dict, 'sorted': _b_sorted, 'map': _b_map,
+    'getattr': _b_getattr, 'hasattr': _b_hasattr, 'int': _b_int, 'type': _b_type, 'set': _b_set,
+    'frozenset': lambda it, a, k: frozenset(_b_set(it, a, k)),
+    'repr': lambda it, a, k: it.to_repr(a[0]),
+    'bool': lambda it, a, k: it.truth(a[0]) if a else False,
+    'tuple': lambda it, a, k: tuple(it.iterate(a[0])) if a else (),
+    'list': lambda it, a, k: list(it.iterate(a[0])) if a else [],
+    'iter': lambda it, a, k: it.iterate(a[0]),
+    'reversed': lambda it, a, k: list(reversed(it.iterate(a[0]))),
+    'enumerate': lambda it, a, k: [(i + (a[1] if len(a) > 1 else k.get('start', 0)), x) for i, x in enumerate(it.iterate(a[0]))],
+    'zip': lambda it, a, k: [tuple(xs) for xs in zip(*[it.iterate(x) for x in a])],
+    'range': lambda it, a, k: range(*a) if _native_ok(a) else (_ for _ in ()).throw(Unsupported('range() arguments')),
+    'all': lambda it, a, k: all(it.truth(x) for x in it.iterate(a[0])),
+    'any': lambda it, a, k: any(it.truth(x) for x in it.iterate(a[0])),
+    'filter': lambda it, a, k: [x for x in it.iterate(a[1]) if (it.truth(x) if a[0] is None else it.truth(it.call(a[0], [x])))],
+    'sum': lambda it, a, k: _native_builtin(sum)(it, [it.iterate(a[0])] + a[1:], k),
+    'min': _b_minmax(min), 'max': _b_minmax(max),
+    'bytes': _native_builtin(bytes), 'ord': _native_builtin(ord), 'chr': _native_builtin(chr), 'abs': _native_builtin(abs),
+    'float': _native_builtin(float), 'ascii': _native_builtin(ascii), 'hex': _native_builtin(hex), 'format': _native_builtin(format),
+    'divmod': _native_builtin(divmod), 'round': _native_builtin(round),
+    'callable': lambda it, a, k: isinstance(a[0], (Func, Bound, Builtin, ClassRef)),
+    'id': lambda it, a, k: (_ for _ in ()).throw(Unsupported('id() is implementation-defined')),
+    'hash': lambda it, a, k: (_ for _ in ()).throw(Unsupported('hash() is implementation-defined (randomised for str)')),
+    'print': lambda it, a, k: None,
+}.items():
+    BUILTINS[_n] = Builtin(_n, _f)
+
+
+def _re_call(name: str) -> Builtin:
+    return Builtin('re.' + name, lambda it, a, k: _native_builtin(getattr(_re, name))(it, a, k))
+
+
+DEFAULT_EXTERNALS: Dict[str, Any] = {
+    're.compile': _re_call('compile'), 're.fullmatch': _re_call('fullmatch'), 're.match': _re_call('match'), 're.search': _re_call('search'),
+    're.sub': _re_call('sub'), 're.split': _re_call('split'), 're.escape': _re_call('escape'), 're.findall': _re_call('findall'),
+    're.ASCII': _re.ASCII, 're.A': _re.A, 're.IGNORECASE': _re.IGNORECASE, 're.I': _re.I, 're.DOTALL': _re.DOTALL, 're.S': _re.S,
+    're.UNICODE': _re.UNICODE, 're.U': _re.U, 're.MULTILINE': _re.MULTILINE, 're.M': _re.M, 're.VERBOSE': _re.VERBOSE, 're.X': _re.X,
+    'operator.eq': Builtin('operator.eq', lambda it, a, k: it.py_eq(a[0], a[1])),
+    'operator.ne': Builtin('operator.ne', lambda it, a, k: not it.py_eq(a[0], a[1])),
+    'sys.intern': Builtin('sys.intern', lambda it, a, k: a[0]),
+    'unicodedata.normalize': Builtin('unicodedata.normalize', _native_builtin(__import__('unicodedata').normalize)),
+    'typing.ClassVar': ExtRef('typing.ClassVar'),
+}
